@@ -19,18 +19,18 @@ RULE = ("2-4 (thorough: up to 16) caller threads - real pthreads of which the si
         "('io'), or 1-30 forced pre-emptions at instrumented basic-block edges of the repository code placed after a counting pass ('edge'). Oracle: no crash/sanitizer report/exit/deadlock/step-budget overrun; "
         "handles issued as new pairwise distinct; interval semantics for searches and reads during the run; at quiescence objects = created - destroyed with every acknowledged change present, also after a restart; "
         "mutex discipline of the library as seen by the callbacks. Distinct+non-trivial: (locking mode, policy, stratum, distinct context-switch sequence).")
-PROBES = ["runs_with_switches", "edge_preemptions", "mutex_blocked", "mutex_locks", "handles_checked", "quiescence_checked", "restart_checked", "overlapping_calls", "stratum_close_open", "stratum_logout_private", "stratum_create_search", "stratum_destroy_read", "stratum_same_object", "stratum_slots", "stratum_crypto", "stratum_session_objects", "stratum_last_close_login", "login_state_after_own_login_checked", "parks_fired", "rejected_sets"]
+PROBES = ["runs_with_switches", "edge_preemptions", "mutex_blocked", "mutex_locks", "handles_checked", "quiescence_checked", "restart_checked", "overlapping_calls", "stratum_close_open", "stratum_logout_private", "stratum_create_search", "stratum_destroy_read", "stratum_same_object", "stratum_slots", "stratum_crypto", "stratum_session_objects", "stratum_last_close_login", "stratum_setpin_login", "login_state_after_own_login_checked", "parks_fired", "rejected_sets"]
 DEATH_IS_VIOLATION = ("died.exit", "died.sanitizer", "died.signal", "died.hang", "died.deadlock")
 READ_T = c15.READ_T
 
-STRATA = ["mixed", "close_open", "logout_private", "create_search", "destroy_read", "same_object", "slots", "crypto", "session_objects", "last_close_login"]
+STRATA = ["mixed", "close_open", "logout_private", "create_search", "destroy_read", "same_object", "slots", "crypto", "session_objects", "last_close_login", "setpin_login"]
 
 def gen(seed, tier, index):
     g = G(seed, "C18", profile="mthread"); r = g.r
     nth = r.choice([2, 2, 3, 3, 4]) if tier == "quick" else r.choice([2, 3, 4, 6, 8, 12, 16])
     stratum = STRATA[index % len(STRATA)]
     policy = ["io", "park", "edge"][index % 3]
-    if stratum == "last_close_login":
+    if stratum in ("last_close_login", "setpin_login"):
         # the window needs whole foreign calls inside one call: long pre-emptions in two runs out of three; two threads keep "the last session" frequent
         nth = 2; policy = "io" if index % 3 == 0 else "park"
     g.knobs["policy"] = policy
@@ -62,7 +62,11 @@ def gen(seed, tier, index):
         hk = g.new_obj()
         ht, _ = objs.make("generic", hk, r, token=False, private=False, vlen=48)
         g.emit({"f": "C_CreateObject", "s": s_, "tmpl": ht, "out": hk}, 0); hkey_of[tk] = hk
-    tok3 = g.setup_token(0, so_pin=so, upin=up) if stratum == "last_close_login" else None      # a token on which NO long-lived session exists
+    tok3 = g.setup_token(0, so_pin=so, upin=up) if stratum in ("last_close_login", "setpin_login") else None      # a token on which NO long-lived session exists
+    s3 = {}
+    if stratum == "setpin_login":
+        for t in range(nth):
+            s3[t] = g.new_sess(); g.emit({"f": "C_OpenSession", "slot": tok3, "flags": RW, "out": s3[t]}, 0)
     for t in range(nth): g.emit({"act": "barrier"}, t)
     own = {t: [] for t in range(nth)}
     def op_set(t, ref, attr):
@@ -90,7 +94,18 @@ def gen(seed, tier, index):
         s = sess[t]; shared = shared_of[on_tok(t)]; keyref = keyref_of[on_tok(t)]
         for i in range(n):
             x = r.random()
-            if stratum == "last_close_login" and x < 0.8:
+            if stratum == "setpin_login" and x < 0.85:
+                # C_SetPIN (old PIN = new PIN: the PIN stays what it is) keeps the login state of the token whatever it is; the other thread logs in and out.
+                # After its OWN acknowledged C_Login (C_Logout) that thread must see the user (public) state until its own next call changes it - whatever
+                # the schedule: only one thread logs in and out, and the other thread's calls are state-preserving
+                if t != 1:
+                    g.emit({"f": "C_SetPIN", "s": s3[t], "old": up.hex(), "new": up.hex(), "spl": True, "park_me": True}, t)
+                else:
+                    g.emit({"f": "C_Login", "s": s3[t], "user": K.CKU_USER, "pin": up.hex(), "spl": "login", "park_other": True}, t)
+                    for _ in range(r.randint(1, 2)): g.emit({"f": "C_GetSessionInfo", "s": s3[t], "spl": "info_user"}, t)
+                    g.emit({"f": "C_Logout", "s": s3[t], "spl": "logout"}, t)
+                    for _ in range(r.randint(1, 2)): g.emit({"f": "C_GetSessionInfo", "s": s3[t], "spl": "info_public"}, t)
+            elif stratum == "last_close_login" and x < 0.8:
                 # closing the LAST session of a token (which logs the token out) || another thread opening a session there and logging in: once a thread's own
                 # C_Login has returned CKR_OK, and while its own session stays open, nothing the other threads do here (they only open and close sessions, and a
                 # close is "the last one" only if no other session exists) can log the token out again - whatever the schedule
@@ -192,9 +207,9 @@ def prepare_park(plan, z):
     r = random.Random(plan["seed"] ^ 0x9A4C)
     p1 = copy.deepcopy(plan); p1["knobs"]["policy"] = "call"; p1["knobs"]["switch_p"] = 0.0
     res = z.run(p1)
-    ny = {}
+    ny = {}; ym = {}
     for e in res.hist:
-        if e.get("e") == "ret" and "cs" not in e: ny[(e["t"], e["op"])] = e.get("ny", 0)
+        if e.get("e") == "ret" and "cs" not in e: ny[(e["t"], e["op"])] = e.get("ny", 0); ym[(e["t"], e["op"])] = e.get("ym", [])
     cands = []
     for t, task in enumerate(plan["tasks"]):
         nb = 0
@@ -202,10 +217,14 @@ def prepare_park(plan, z):
             if op.get("act") == "barrier": nb += 1; continue
             if nb == 1 and op.get("f") and ny.get((t, k), 0) > 2: cands.append((t, k, ny[(t, k)]))
     parks = []
-    prefer = [c for c in cands if plan["tasks"][c[0]]["ops"][c[1]].get("lcl") == "close_maybe_last"]
+    prefer = [c for c in cands if plan["tasks"][c[0]]["ops"][c[1]].get("lcl") == "close_maybe_last" or plan["tasks"][c[0]]["ops"][c[1]].get("park_me")]
     if prefer:
-        # every close that may be the token's last one gets its own long pre-emption at a random point inside it
-        for t, k, n in prefer: parks.append([t, k, r.randrange(1, n), r.choice([6, 7, 8, 9, 9, 12])])
+        # every close that may be the token's last one (every C_SetPIN of the setpin_login stratum) gets its own long pre-emption at a random point inside it
+        def ypick(t, k, n):
+            # two thirds of the long pre-emptions start at a mutex operation (the windows between two critical sections are where atomicity is lost)
+            m = [y for y in ym.get((t, k), []) if 0 < y < n]
+            return r.choice(m) if m and r.random() < 0.67 else r.randrange(1, n)
+        for t, k, n in prefer: parks.append([t, k, ypick(t, k, n), r.choice([3, 3, 6] if plan["tasks"][t]["ops"][k].get("park_me") else [6, 7, 8, 9, 9, 12])])
     elif cands:
         # calls that tear something down are where a window matters most: half of the parks go there
         closing = [c for c in cands if plan["tasks"][c[0]]["ops"][c[1]].get("f") in ("C_CloseSession", "C_Logout", "C_DestroyObject", "C_CloseAllSessions")]
@@ -258,7 +277,7 @@ def check(plan, r):
     if nsw: st("runs_with_switches")
     st("edge_preemptions", sw.get("Y4", 0))
     if plan.get("park_policy"): st("parks_fired", sw.get("forced", 0) and len(plan["knobs"].get("parks", [])))
-    st("stratum_" + {"close_open": "close_open", "logout_private": "logout_private", "create_search": "create_search", "destroy_read": "destroy_read", "same_object": "same_object", "slots": "slots", "crypto": "crypto", "session_objects": "session_objects", "last_close_login": "last_close_login"}.get(stratum, "mixed"))
+    st("stratum_" + {"close_open": "close_open", "logout_private": "logout_private", "create_search": "create_search", "destroy_read": "destroy_read", "same_object": "same_object", "slots": "slots", "crypto": "crypto", "session_objects": "session_objects", "last_close_login": "last_close_login", "setpin_login": "setpin_login"}.get(stratum, "mixed"))
     # (v) mutex discipline
     for m in hist.mons(r, "mutex_discipline"):
         viols.append(_v("C18.mutex_discipline", "the library misused a mutex it got from the application: %s (mutex #%s)" % (m["d"].get("what"), m["d"].get("id")), call="mutex", manifestation=m["d"].get("what"))); break
@@ -339,7 +358,7 @@ def check(plan, r):
         v["created_under_observation"] = bool(c is not None and any(o.tid != c.tid and o.f in ("@find", "@readout", "@readattrs") and o.inv < c.retn and c.inv < o.retn for o in evs))
     w = World()
     restarted = False
-    lcl_login = {}
+    lcl_login = {}; spl_state = {}
     import hashlib
     for e in evs:
         P = w.proc(1)
@@ -352,6 +371,18 @@ def check(plan, r):
                 viols.append(_v("C18.unexplained", "thread %d: C_CreateObject of a public object in its own RW session returned %s - no sequential order explains that" % (e.tid, K.rvname(e.ret.get("rv"))), call=e.f, op=e.k, manifestation="spurious_failure", rv=K.rvname(e.ret.get("rv"))))
             if e.f in ("C_OpenSession", "C_CloseSession", "C_GetSessionInfo", "C_DigestInit", "C_DigestUpdate", "C_DigestFinal", "C_EncryptInit", "C_Encrypt", "C_SignInit", "C_Sign", "C_GenerateRandom", "C_GetSlotList", "C_GetTokenInfo", "C_GetMechanismList") and not e.ok:
                 viols.append(_v("C18.unexplained", "thread %d: %s on its own session returned %s - no sequential order explains that" % (e.tid, e.f, K.rvname(e.ret.get("rv"))), call=e.f, op=e.k, manifestation="spurious_failure", rv=K.rvname(e.ret.get("rv"))))
+        spl = e.op.get("spl")
+        if spl:
+            st("setpin_login_ops")
+            if spl == "login": spl_state[e.tid] = "user" if e.ok else spl_state.get(e.tid)
+            if spl == "logout": spl_state[e.tid] = "public" if e.ok else spl_state.get(e.tid)
+            if spl is True and not e.ok:
+                viols.append(_v("C18.unexplained", "thread %d: C_SetPIN with the correct old PIN returned %s - no sequential order explains that" % (e.tid, K.rvname(e.ret.get("rv"))), call=e.f, op=e.k, manifestation="spurious_failure", rv=K.rvname(e.ret.get("rv"))))
+            if spl in ("info_user", "info_public") and e.ok and spl_state.get(e.tid) == spl[5:]:
+                st("login_state_after_own_login_checked")
+                want = K.CKS_RW_USER_FUNCTIONS if spl == "info_user" else K.CKS_RW_PUBLIC_SESSION
+                if e.ret.get("state") != want:
+                    viols.append(_v("C18.login_lost", "thread %d: after its own acknowledged %s (the only other calls on this token are C_SetPIN calls of another thread, which keep the login state) C_GetSessionInfo reports state %s - no sequential order of the calls explains that" % (e.tid, "C_Login" if spl == "info_user" else "C_Logout", e.ret.get("state")), call=e.f, op=e.k, manifestation="login_state_changed_by_concurrent_setpin"))
         lcl = e.op.get("lcl")
         if lcl:
             st("last_close_login_ops")
